@@ -65,11 +65,11 @@ Definition softs (l : list soft) : list dev := map DSoft l.
 
 (* contexts that only ask "does it yield anything" pull one result: what
    happens up to the first yielded stack *)
-Fixpoint upto_first (evs : list dev) : list dev * option (stack * denv) :=
+Fixpoint upto_first (evs : list dev) : list soft * option (stack * denv) :=
   match evs with
   | [] => ([], None)
   | DOut s e :: _ => ([], Some (s, e))
-  | DSoft k :: t => let '(pre, o) := upto_first t in (DSoft k :: pre, o)
+  | DSoft k :: t => let '(pre, o) := upto_first t in (k :: pre, o)
   end.
 
 (* the captured environment travels inside the closure value: one
@@ -180,8 +180,8 @@ Section Den.
         | DOk evs ab =>
           let '(pre, o) := upto_first evs in
           match o with
-          | Some _ => seq (ok pre) (scoped env (den f' a env stk))
-          | None => if ab then DOk pre true else seq (ok pre) (scoped env (den f' b env stk))
+          | Some _ => seq (ok (softs pre)) (scoped env (den f' a env stk))
+          | None => if ab then DOk (softs pre) true else seq (ok (softs pre)) (scoped env (den f' b env stk))
           end
         | o => o
         end
@@ -279,7 +279,7 @@ Section Den.
 
       | TAssert p =>
         match peval f' p env stk with
-        | inl (r, errs) => ok (errs ++ match r with PYes => [DOut stk env] | _ => [] end)
+        | inl (r, errs) => ok (softs errs ++ match r with PYes => [DOut stk env] | _ => [] end)
         | inr o => o
         end
 
@@ -288,52 +288,38 @@ Section Den.
       | TStr s => ok [DOut (VStr s 0 :: stk) env]
 
       | TFormat l =>
-        (* splices are resolved right to left; the leftmost varies fastest *)
-        let fix fmt (parts : list tree) (stk : stack) : dres * list (stack * bytes) :=
+        (* splices are resolved right to left; the leftmost varies fastest.
+           A pending result is a stack with the string built so far on top
+           (position 0 until the final numbering). *)
+        let fix fmt (parts : list tree) : dres :=
             match parts with
-            | [] => (ok [], [(stk, [])])
+            | [] => ok [DOut (VStr [] 0 :: stk) env]
             | part :: rest =>
-              let '(r0, ups) := fmt rest stk in
-              match r0 with
-              | DOk ev0 false =>
-                (fix each (ups : list (stack * bytes)) (acc : dres) (res : list (stack * bytes))
-                   : dres * list (stack * bytes) :=
-                   match ups with
-                   | [] => (acc, res)
-                   | (s1, suffix) :: more =>
-                     match part with
-                     | TStr lit => each more acc (res ++ [(s1, lit ++ suffix)])
-                     | _ =>
-                       match den f' part env s1 with
-                       | DOk evs ab =>
-                         let new :=
-                             flat_map (fun ev => match ev with
-                                                 | DOut (v :: s2) _ => [(s2, show (p_tc P) v ++ suffix)]
-                                                 | _ => []
-                                                 end) evs in
-                         let bad := existsb (fun ev => match ev with DOut [] _ => true | _ => false end) evs in
-                         let soft := filter (fun ev => match ev with DSoft _ => true | _ => false end) evs in
-                         let acc' := seq acc (DOk soft (ab || bad)) in
-                         match acc' with
-                         | DOk _ false => each more acc' (res ++ new)
-                         | _ => (acc', res ++ new)
-                         end
-                       | o => (o, res)
-                       end
-                     end
-                   end) ups (ok ev0) []
-              | o => (o, ups)
-              end
+              bind_outs (fmt rest)
+                        (fun s1 _ =>
+                           match s1 with
+                           | VStr suffix _ :: s1' =>
+                             match part with
+                             | TStr lit => ok [DOut (VStr (lit ++ suffix) 0 :: s1') env]
+                             | _ =>
+                               bind_outs (den f' part env s1')
+                                         (fun s2 _ =>
+                                            match s2 with
+                                            | v :: s2' => ok [DOut (VStr (show (p_tc P) v ++ suffix) 0 :: s2') env]
+                                            | [] => abort
+                                            end)
+                             end
+                           | _ => DStuck
+                           end)
             end in
-        let '(r, strs) := fmt l stk in
-        let numbered :=
-            (fix num (l : list (stack * bytes)) (i : N) : list dev :=
-               match l with
-               | [] => []
-               | (s, str) :: t => DOut (VStr str i :: s) env :: num t (i + 1)%N
-               end) strs 0%N in
-        match r with
-        | DOk softs_ ab => DOk (softs_ ++ numbered) ab
+        match fmt l with
+        | DOk evs ab =>
+          DOk ((fix num (evs : list dev) (i : N) : list dev :=
+                  match evs with
+                  | [] => []
+                  | DOut (VStr str _ :: s) e :: t => DOut (VStr str i :: s) e :: num t (i + 1)%N
+                  | ev :: t => ev :: num t i
+                  end) evs 0%N) ab
         | o => o
         end
 
@@ -349,7 +335,7 @@ Section Den.
     end
 
   (* predicates: (three-valued result, diagnostics) or a failure of the whole evaluation *)
-  with peval (f : nat) (p : tree) (env : denv) (stk : stack) {struct f} : (pres * list dev) + dres :=
+  with peval (f : nat) (p : tree) (env : denv) (stk : stack) {struct f} : (pres * list soft) + dres :=
     match f with
     | O => inr DFuel
     | S f' =>
@@ -383,7 +369,7 @@ Section Den.
           let '(pre, o) := upto_first evs in
           match o with
           | Some _ => inl (PYes, pre)
-          | None => if ab then inr (DOk pre true) else inl (PNo, pre)
+          | None => if ab then inr (DOk (softs pre) true) else inl (PNo, pre)
           end
         | o => inr o
         end
